@@ -502,7 +502,7 @@ pub fn run(r: &mut Runner) {
     // ------------------------------------------------------------------ (b) chains: level-synchronous BFS
     let sd = seeds();
     let partners: Vec<[f64; 2]> = if quick { sd.iter().step_by(2).cloned().collect() } else { sd.iter().step_by(3).cloned().collect() };
-    let depth = if quick { 2 } else { 3 };
+    let depth = if quick { 3 } else { 4 };
     r.notes.push(format!("chains: {} seeds, {} partner operands for binary calls (both operand orders), {} unary + {} binary entry points, breadth-first to depth {}; a state is expanded only if it is a valid operand with high word 0 or in [2^-1000, 2^1000]; states deduplicated on their 128 bits (NaN canonicalised); the last level's successors are judged but not stored", sd.len(), partners.len(), un.len(), bin.len(), depth));
     let mut visited: Vec<[u64; 2]> = sd.iter().map(|w| canon_state(*w)).collect();
     visited.sort();
